@@ -102,7 +102,7 @@ def op_str(op):
     if c == 6:
         return "OpenStream of call %d returns %s" % (op[1], "ok" if op[2] else "error")
     if c == 7:
-        return "peer addrs := %s" % ["%d:%s" % (a // 4, {0: "direct", 1: "relay", 2: "notransport"}.get(a % 4, "?")) for a in op[2:]]
+        return "peer addrs := %s" % ["%d:%s" % (a // 4, {0: "direct", 1: "relay", 2: "notransport", 3: "dnsaddr"}.get(a % 4, "?")) for a in op[2:]]
     if c == 8:
         return "dial on addr %d returns %s" % (op[1], ("conn(limited=%d)" % op[3]) if op[2] else "error")
     if c == 11:
